@@ -3,6 +3,7 @@
 SM = "./pkg/pdfcpu/safemath"
 
 TY = "./pkg/pdfcpu/types"
+FI = "./pkg/filter"
 
 PROPS = {
     "C12": dict(
@@ -35,6 +36,37 @@ PROPS = {
         opts=dict(enc="int", solvers=["z3-new"], unwind=64, timeout_ms=120000),
         harnesses=[
             dict(name="VerifDateRoundTrip"),
+        ],
+    ),
+    "C15": dict(
+        pkg=FI,
+        explanation="Filter.Encode then Filter.Decode executed symbolically on byte strings whose every byte is an SMT variable, for ASCIIHex, RunLength and ASCII85 alone and in pipelines; run-structured RunLength inputs cross the 128-byte run boundary",
+        outside="Flate and LZW compression cores (zlib / LZW writer are not encodable within reach: symbolic-index hash tables, Huffman coding), hence also Flate/LZW decode parameters on re-encoded streams; ASCII85 groups of 4+ fully symbolic bytes (solver unknown at 120 s in z3 5.1.0 and cvc5 1.0.3, both encodings); pipelines longer than the bound; whole StreamDict re-encode",
+        harnesses=[
+            dict(name="VerifFilterRoundTrip", bounds=dict(quick=dict(N=3, PIPE=2), thorough=dict(N=5, PIPE=2)), opts=dict(unwind=300)),
+            dict(name="VerifRunLengthRuns", opts=dict(unwind=600)),
+            dict(name="VerifASCII85RoundTrip", bounds=dict(quick=dict(N=2), thorough=dict(N=3)), opts=dict(enc="int", solver="z3-new", timeout_ms=120000, workers=6, unwind=300)),
+        ],
+    ),
+    "C16": dict(
+        pkg=FI,
+        explanation="Two decodings of the same ARBITRARY encoded input (every byte symbolic, not only encoder output) are compared in one harness: unlimited vs under a symbolic limit L, and vs bounded to a symbolic n; L and n range over [min,3] and [len-3,len+2] around the exact decoded length",
+        outside="Flate/LZW decompressors themselves (the limit logic below them, copyDecoded/decodePostProcessRows, is driven with an arbitrary inflated stream); ASCII85; StreamDict-level truncation to exactly n bytes; encoded inputs longer than N bytes",
+        assumptions=["limit L >= 1: 0 means 'default limit' and a negative value 'unlimited' (documented sentinels of baseFilter.decodeLimit)", "the Filter interface documents DecodeLength as 'at least maxLen bytes': the filter-level assertion is prefix-of-full with length >= min(n, len(full))"],
+        harnesses=[
+            dict(name="VerifLimitRunLength", bounds=dict(quick=dict(N=3), thorough=dict(N=4)), opts=dict(unwind=700)),
+            dict(name="VerifLimitASCIIHex", bounds=dict(quick=dict(N=4), thorough=dict(N=6)), opts=dict(unwind=100)),
+            dict(name="VerifLimitPredictorRows", bounds=dict(quick=dict(N=6, COLS=2), thorough=dict(N=9, COLS=3)), opts=dict(unwind=100)),
+        ],
+    ),
+    "C17": dict(
+        pkg=FI,
+        explanation="processRow (PNG filters None/Sub/Up/Average/Paeth and TIFF predictor 2) is checked as an inductive step from an ARBITRARY reconstructed prior row against RFC 2083 section 6 / TIFF 6.0 section 14 references written in the harness, for every predictor, colours, bits per component and columns up to the bound, with all 256 filter-type bytes; the row loop of decodePostProcess is checked separately on R rows",
+        outside="columns/colours beyond the bounds; the zlib/LZW decompressors feeding the rows",
+        harnesses=[
+            dict(name="VerifPredictorRow", bounds=dict(quick=dict(C=2, COLORS=2), thorough=dict(C=8, COLORS=4)), opts=dict(unwind=300, timeout_ms=60000)),
+            dict(name="VerifPredictorDriver", bounds=dict(quick=dict(C=2, COLORS=2, R=2), thorough=dict(C=3, COLORS=3, R=3)), opts=dict(unwind=300)),
+            dict(name="VerifPredictorLZW"),
         ],
     ),
     "C42": dict(
